@@ -1,0 +1,57 @@
+//go:build verif
+
+// Contracts for the based sequencer, read by /verif/bin/gocv. Comment-only.
+package based
+
+//@ pred ChunksAligned(pt) := forall k :: 0 <= k && k < len(pt.list) ==> len(pt.list[k].Txs) == len(pt.list[k].IDs)
+
+//@ func (pt *PersistentPendingTxs) Save() (err)
+//@   modifies nothing
+//@   ensures [any] true
+
+//@ func (pt *PersistentPendingTxs) Push(txs, ids, timestamp) (err)
+//@   property C20
+//@   requires [aligned] len(txs) == len(ids)
+//@   observe sv := call Save
+//@   modifies pt.list
+//@   ensures [appended] len(pt.list) == old(len(pt.list)) + 1 && pt.list[len(pt.list)-1].Txs == txs && pt.list[len(pt.list)-1].IDs == ids
+//@   ensures [saved] sv.count == 1
+
+//@ func (pt *PersistentPendingTxs) PopUpToMaxBytes(maxBytes) (txs, ids, total, ts)
+//@   property C20
+//@   nopanic
+//@   requires [chunks] ChunksAligned(pt)
+//@   requires [limit] maxBytes < 4611686018427387904
+//@   observe sv := call Save
+//@   modifies pt.list, heap "[]based.TxsWithTimestamp.Txs", heap "[]based.TxsWithTimestamp.IDs", heap "[]based.TxsWithTimestamp.Timestamp"
+//@   ensures [bound] total <= maxBytes
+//@   ensures [total-is-sum] total == sumLen(txs, len(txs))
+//@   ensures [count] len(txs) == len(ids)
+//@   ensures [saved] sv.count >= 1
+//@   ensures [rest-first] len(pt.list) > 0 ==> len(pt.list[0].Txs) > 0 && len(pt.list[0].Txs) == len(pt.list[0].IDs)
+//@   loop 1 invariant [bound] totalSize <= maxBytes && len(poppedTxs) == len(ids) && ChunksAligned(pt) && sv.count == 0
+//@   loop 1 invariant [sum] totalSize == sumLen(poppedTxs, len(poppedTxs))
+//@   loop 2 invariant [sum] totalSize == sumLen(poppedTxs, len(poppedTxs))
+//@   loop 2 invariant [bound] totalSize <= maxBytes && len(poppedTxs) == len(ids) && ChunksAligned(pt) && sv.count == 0 && len(pt.list) > 0
+//@                       && len(first.Txs) == len(first.IDs) && rangeindex >= -1
+
+//@ func (s *Sequencer) GetNextBatch(ctx, req) (resp, err)
+//@   property C20
+//@   requires [wiring] s.pendingTxs != nil && s.logger != nil && s.store != nil && ChunksAligned(s.pendingTxs)
+//@   requires [limit] req.MaxBytes < 4611686018427387904
+//@   observe pop := call PopUpToMaxBytes
+//@   observe rwh := call RetrieveWithHelpers
+//@   observe push := call Push
+//@   observe put := call Put
+//@   modifies s.pendingTxs.list, heap "[]based.TxsWithTimestamp.Txs", heap "[]based.TxsWithTimestamp.IDs", heap "[]based.TxsWithTimestamp.Timestamp"
+//@   ensures [bound] resp != nil && resp.Batch != nil ==> sumLen(resp.Batch.Transactions, len(resp.Batch.Transactions)) <= ite(req.MaxBytes != 0, req.MaxBytes, 1500000)
+//@   ensures [count] resp != nil && resp.Batch != nil ==> len(resp.Batch.Transactions) == len(resp.BatchData)
+//@   ensures [scan-persisted] err == nil && val(s.Id) == val(req.Id) ==> put.count == 1
+//@   ensures [scan-after-push] push ==> put && val(put.arg3) == decBytes(nextDAHeight + 1)
+//@   ensures [no-overtake] pop && len(pop.arg0.list) > 0 ==> rwh.count == 0
+//@   loop 1 invariant [size] size <= maxBytes && resp != nil && resp.Batch != nil && len(resp.Batch.Transactions) == len(resp.BatchData)
+//@                       && size == sumLen(resp.Batch.Transactions, len(resp.Batch.Transactions)) && push.count == 0
+//@   loop 1 invariant [no-skip-future] rwh.count == 1 && rwh.res0.Code == coreda.StatusHeightFromFuture ==> nextDAHeight == iter(nextDAHeight)
+//@   loop 1 invariant [retry-on-error] rwh.count == 1 && rwh.res0.Code == coreda.StatusError ==> nextDAHeight == iter(nextDAHeight)
+//@   loop 2 invariant [size] size <= maxBytes && resp != nil && resp.Batch != nil && len(resp.Batch.Transactions) == len(resp.BatchData)
+//@                       && size == sumLen(resp.Batch.Transactions, len(resp.Batch.Transactions)) && push.count == 0 && rangeindex >= -1
